@@ -157,12 +157,13 @@ def errorBeforeFirstChunk : RespBody → Bool
   | .stream [] (some _) => true
   | _ => false
 
-/-- PARTIAL: status, args, body / streamed chunks and a mid-stream error reach the
-response handler unchanged — except when the stream fails before its first chunk
-(excluded by `hex`; that family is a real defect of the code, witnessed below). -/
+/-- PARTIAL (the code as found, `fx = false`): status, args, body / streamed chunks and a
+mid-stream error reach the response handler unchanged — except when the stream fails
+before its first chunk (excluded by `hex`; that family is a real defect of the code,
+witnessed below). -/
 theorem resp_handler_roundtrip_partial (ok : Bool) (headers args : Bytes) (body : RespBody)
     (hex : errorBeforeFirstChunk body = false) :
-    Resp.run {} (.headers headers :: ((respParts ok args body).map Part.ev ++ [.end_]))
+    Resp.run false {} (.headers headers :: ((respParts ok args body).map Part.ev ++ [.end_]))
       = .ok (respExpected ok args body) := by
   cases body with
   | none_ => cases ok <;> simp [respParts, Resp.run, Resp.step, Part.ev, respExpected]
@@ -192,14 +193,52 @@ theorem resp_handler_roundtrip_partial (ok : Bool) (headers args : Bytes) (body 
 
 example : errorBeforeFirstChunk (.stream [[1, 2]] (some [108, 101])) = false := by decide
 
-/-- WITNESS (finding): a successful response whose body stream fails before
-yielding a chunk is written as `oS s(args) oE s(err) e`; the response handler
+/-- WITNESS (finding F15, code as found): a successful response whose body stream fails
+before yielding a chunk is written as `oS s(args) oE s(err) e`; the response handler
 takes the `oE` for a second status byte and raises instead of delivering `err`. -/
 theorem resp_stream_error_first_witness :
-    Resp.run {} (.headers [100, 101] ::
+    Resp.run false {} (.headers [100, 101] ::
         ((respParts true [108, 101] (.stream [] (some [108, 101]))).map Part.ev ++ [.end_]))
       = .error .unexpectedByte := by
   simp [respParts, Resp.run, Resp.step, Part.ev]
+
+/-- expected handler state for the handler with the proposed fix: as `respExpected`,
+and a stream that failed before its first chunk delivers its error too -/
+def respExpectedFixed (ok : Bool) (args : Bytes) : RespBody → Resp
+  | .stream [] (some e) => { status := some (if ok then 83 else 69), args := some args,
+                             streamStatus := some 69, errArgs := some e, ended := true }
+  | b => respExpected ok args b
+
+/-- With the proposed fix (`fx = true`) the round trip holds for EVERY conventional
+response, including a body stream that fails before its first chunk. -/
+theorem resp_handler_roundtrip_fixed (ok : Bool) (headers args : Bytes) (body : RespBody) :
+    Resp.run true {} (.headers headers :: ((respParts ok args body).map Part.ev ++ [.end_]))
+      = .ok (respExpectedFixed ok args body) := by
+  cases body with
+  | none_ => cases ok <;> simp [respParts, Resp.run, Resp.step, Part.ev, respExpected, respExpectedFixed]
+  | body b => cases ok <;> simp [respParts, Resp.run, Resp.step, Part.ev, respExpected, respExpectedFixed]
+  | stream cs err =>
+    have hmap : ∀ l : List Bytes, List.map Part.ev (List.map Part.bytes l) = l.map Ev.bytes := by
+      intro l; simp [Part.ev]
+    cases err with
+    | none =>
+      cases cs with
+      | nil => cases ok <;> simp [respParts, Resp.run, Resp.step, Part.ev, respExpected, respExpectedFixed]
+      | cons c cs' =>
+        simp only [respParts, List.append_nil, List.map_append, List.map_cons, List.map_nil,
+          List.cons_append, List.nil_append, Resp.run, Resp.step, Part.ev, hmap, List.append_assoc]
+        cases ok <;>
+        · simp only [Bool.false_eq_true, if_false, if_true]
+          simp [Resp.run_append, Resp.run_bytes, Resp.run, Resp.step, respExpected, respExpectedFixed]
+    | some e =>
+      cases cs with
+      | nil => cases ok <;> simp [respParts, Resp.run, Resp.step, Part.ev, respExpectedFixed]
+      | cons c cs' =>
+        simp only [respParts, List.map_append, List.map_cons, List.map_nil,
+          List.cons_append, List.nil_append, Resp.run, Resp.step, Part.ev, hmap, List.append_assoc]
+        cases ok <;>
+        · simp only [Bool.false_eq_true, if_false, if_true]
+          simp [Resp.run_append, Resp.run_bytes, Resp.run, Resp.step, respExpected, respExpectedFixed]
 
 /-! ## protocol 1 / 2 -/
 
